@@ -162,6 +162,13 @@ pub struct CornerCase {
     pub b: usize,
     pub pattern: u8,
     pub seed: u64,
+    /// size of the received set: 0 exactly k (maximum loss), 1 k+1, 2 uniform in k..=k+r, 3 all k+r shards
+    #[serde(default)]
+    pub n_mode: u8,
+}
+
+pub fn corner_n_mode() -> BoxedStrategy<u8> {
+    prop_oneof![5 => Just(0u8), 1 => Just(1u8), 1 => Just(2u8), 2 => Just(3u8)].boxed()
 }
 
 fn corner_strategy(tier: Tier) -> BoxedStrategy<CornerCase> {
@@ -175,8 +182,9 @@ fn corner_strategy(tier: Tier) -> BoxedStrategy<CornerCase> {
                 0..sizes.len(),
                 prop_oneof![Just(1u8), Just(0u8), Just(3u8), Just(5u8)],
                 any::<u64>(),
+                corner_n_mode(),
             )
-                .prop_map(move |(ci, eng, si, pattern, seed)| CornerCase {
+                .prop_map(move |(ci, eng, si, pattern, seed, n_mode)| CornerCase {
                     kind,
                     eng,
                     k: corners[ci].0,
@@ -184,6 +192,7 @@ fn corner_strategy(tier: Tier) -> BoxedStrategy<CornerCase> {
                     b: sizes[si],
                     pattern,
                     seed,
+                    n_mode,
                 })
         })
         .boxed()
@@ -197,9 +206,10 @@ pub fn check_corner(c: &CornerCase, st: &mut Stats) -> CheckResult {
         eng: c.eng,
         cfg: Cfg { k: c.k, r: c.r, b },
         data: DataSpec { mode: 0, seed: c.seed },
-        recv: RecvSpec { n_mode: 0, pattern: c.pattern, order: 2, seed: c.seed },
+        recv: RecvSpec { n_mode: c.n_mode, pattern: c.pattern, order: 2, seed: c.seed },
     };
     check_round(&rd, st)?;
+    st.classf("corner_received", ["k", "k+1", "uniform", "all"][c.n_mode as usize % 4]);
     st.classf("corner", format!("{}:{}", c.k, c.r));
     Ok(())
 }
